@@ -51,7 +51,7 @@ MANIFEST = {
                  "library contract) + differential correspondence model vs implementation per backend, glue model vs OpenSSL class, "
                  "contract probes on the real library + exhaustive toy-curve enumeration (test)",
 }
-RULE = ("ops ec_add/ec_sub/ec_neg/ec_assoc/ec_mul/ec_rawmul/ec_blindmul/ec_genmul/ec_invmod(c)/ec_points_for_x/ec_on_curve/ec_sqrt/"
+RULE = ("ops ec_add/ec_sub/ec_neg/ec_assoc/ec_mul/ec_mulr (P*k)/ec_rgenmul (k*G)/ec_rawmul/ec_blindmul/ec_genmul/ec_invmod(c)/ec_points_for_x/ec_on_curve/ec_sqrt/"
         "ec_shared on secp256k1, secp256r1 (both configurations), BLS12-381 (pure only), and toy curves built through pycoin's Generator; "
         "ec_ossl_mul/rawmul/inv/add/blindmul/shared: the glue model of native/openssl.py against the OpenSSL class (e in {0, ±1, n-1, n, n+1, "
         "2n, 2^256-1, -n}, P in {infinity, G, x = 0 on secp256r1, unreduced, off-curve}); ossl_probe: the library contract on the real libcrypto; "
@@ -98,9 +98,9 @@ def trivial(op: str) -> bool:
     a = op.split(" ")
     if a[0] in ("ec_add", "ec_sub", "ec_assoc"):
         return "inf" in a[2:]
-    if a[0] == "ec_mul":
+    if a[0] in ("ec_mul", "ec_mulr"):
         return a[2] == "inf" or a[3] in ("0", "1")
-    if a[0] in ("ec_rawmul", "ec_genmul", "ec_ossl_rawmul"):
+    if a[0] in ("ec_rawmul", "ec_genmul", "ec_rgenmul", "ec_ossl_rawmul"):
         return a[2] in ("0", "1")
     if a[0] == "ec_ossl_mul":
         return a[2] == "inf" or a[3] in ("0", "1")
@@ -259,6 +259,17 @@ def _oracle(op: str, out: str):
         if e % n == 0 and R != (None, None):
             return "order*P is not infinity"
         return _cross(op, out)
+    if k == "ec_mulr":
+        # `P * k` (Point.__mul__) against `k * P` (Point.__rmul__), which carries the multiplication oracle
+        ref = cc.impl("ec_mul " + " ".join(a[1:]))
+        if out != ref:
+            return "P * k differs from k * P: %s vs %s" % (out[:120], ref[:120])
+        return None
+    if k == "ec_rgenmul":
+        ref = cc.impl("ec_genmul " + " ".join(a[1:]))
+        if out != ref:
+            return "k * G (Generator.__rmul__) differs from G * k: %s vs %s" % (out[:120], ref[:120])
+        return None
     if k in ("ec_rawmul", "ec_genmul", "ec_blindmul"):
         tok = a[1]
         gx, gy = consts(tok)[3:5]
@@ -632,6 +643,12 @@ def gen(ctx, emit):
             for e in sc[:12]:
                 emit("ec_mul %s %s %d" % (tok, show_pt(P3), e))
                 emit("ec_mul %s inf %d" % (tok, e))
+            # the other operand order: `P * k` (Point.__mul__ called directly) and `k * G` (Generator.__rmul__)
+            for e in (0, 1, 2, n - 1, n, n + 1, -1, 2 ** 256 - 1, rng.randrange(n)):
+                emit("ec_mulr %s %s %d" % (tok, show_pt(P3), e))
+                emit("ec_rgenmul %s %d" % (tok, e))
+            emit("ec_mulr %s inf 5" % tok)
+            emit("ec_mulr %s %d,%d 5" % (tok, P1[0] + 1, P1[1]))
             for e in (2, 5, n - 1, n + 2, -3):
                 emit("ec_mul %s %d,%d %d" % (tok, P2[0] + p, P2[1], e))
                 emit("ec_mul %s %d,%d %d" % (tok, P2[0], P2[1] - p, e))
